@@ -198,3 +198,43 @@ class Patch:
 
     def __exit__(self, *a):
         self.restore()
+
+
+# ---------------------------------------------------------------- environment slots
+# The harness sometimes has to reach into an environment object (swap its generator for a scripted one, spy on its reward
+# function, put it into a given state).  The attributes are found by what they hold, not by their private names, so that a
+# rename inside the library does not break (or silently disable) a check.
+
+
+def env_slot(env, kind):
+    """name of the instance attribute holding the environment's generator ('rng'), reward function ('reward') or termination
+    function ('termination'); None if it cannot be identified"""
+    import numpy as _np
+    d = vars(env)
+    if kind == 'rng':
+        names = [k for k, v in d.items() if isinstance(v, _np.random.Generator) or type(v).__name__ == 'ScriptedRng']
+    elif kind == 'reward':
+        names = [k for k, v in d.items() if 'reward' in k.lower() and callable(v)]
+    elif kind == 'termination':
+        names = [k for k, v in d.items() if 'termina' in k.lower() and callable(v)]
+    else:
+        raise ValueError(kind)
+    return names[0] if len(names) == 1 else None
+
+
+def env_rng(env):
+    name = env_slot(env, 'rng')
+    return getattr(env, name) if name else None
+
+
+def stateful_slots(env):
+    """(state slot, observation-memo slot) of an environment that has just been reset and observed, identified by identity
+    with what the public properties return; (None, None) if the environment does not keep them as plain attributes"""
+    try:
+        s, o = env.state, env.observation
+    except Exception:  # noqa
+        return None, None
+    d = vars(env)
+    ss = [k for k, v in d.items() if v is s]
+    os_ = [k for k, v in d.items() if v is o]
+    return (ss[0] if len(ss) == 1 else None), (os_[0] if len(os_) == 1 else None)
